@@ -65,6 +65,22 @@ Proof.
 Qed.
 Print Assumptions C14_acquire_results.
 
+(* system level: whenever a step of an actor increases what that actor holds of p (any acquire
+   path of any client procedure), p is present and not exclusive right after the step *)
+Theorem C14_acquire_steps : forall ix0 progs sched i c a a' p, clean ix0 ->
+  let s := reach ix0 progs sched in
+  nth_error (s_acts s) i = Some a -> nth_error (s_acts (mstep s (i, c))) i = Some a' ->
+  holds a p < holds a' p ->
+  exists td', get (s_ix (mstep s (i, c))) p = Some td' /\ t_excl td' = false.
+Proof.
+  intros ix0 progs sched i c a a' p C s Ha Ha' H. pose proof (reach_inv ix0 progs sched C) as I. fold s in I.
+  unfold mstep, mstep_f in *. cbn [fst snd] in *. rewrite Ha in *.
+  destruct (astep (s_ix s) a c) as [[[ix' a2] pn] r] eqn:E. cbn [fst s_acts s_ix] in *.
+  rewrite nth_set_nth_same in Ha' by (apply nth_error_Some; congruence). injection Ha' as ->.
+  exact (astep_acq _ _ _ _ _ _ _ (proj1 (i_wf _ I i a Ha)) E p H).
+Qed.
+Print Assumptions C14_acquire_steps.
+
 (* at most one present partition per tag line, always (re-creation only after removal) *)
 Theorem C14_one_partition_per_tags : forall ix0 progs sched p q tp tq, clean ix0 ->
   let s := reach ix0 progs sched in
@@ -82,21 +98,25 @@ Definition C14_balanced_statement : Prop := forall ix0 progs sched, clean ix0 ->
   let s := reach ix0 progs sched in
   all_finished s = true -> forall p td, get (s_ix s) p = Some td -> t_readers td = 0%Z /\ t_excl td = false.
 
-(* it is false of the faithful model: GetJournals whose first journal fails to open *)
-Theorem C14_balanced_refuted : ~ C14_balanced_statement.
+(* it is false of the code as it is (gj_releases_failed = false, model/TIndex.v): GetJournals whose
+   first journal fails to open leaves readers = 1 for ever.  (The proof script is written so that
+   it also compiles when the switch is flipped after the repair.) *)
+Theorem C14_balanced_refuted : gj_releases_failed = false -> ~ C14_balanced_statement.
 Proof.
-  intros H.
-  specialize (H [{| t_tag := 0; t_readers := 0; t_excl := false; t_live := true |}]
-                [[PQuery [0] 50 (Some 0)]] (repeat (0, 0) 8)).
-  assert (C : clean [{| t_tag := 0; t_readers := 0; t_excl := false; t_live := true |}]).
-  { split; [reflexivity|]. repeat constructor. intros []. }
-  specialize (H C eq_refl 0 {| t_tag := 0; t_readers := 1; t_excl := false; t_live := true |} eq_refl).
-  destruct H as (H & _). discriminate.
+  intros Hf H.
+  pose (ix1 := [{| t_tag := 0; t_readers := 0; t_excl := false; t_live := true |}]).
+  assert (C : clean ix1). { split; [reflexivity|]. repeat constructor. intros []. }
+  specialize (H ix1 [[PQuery [0] 50 (Some 0)]] (repeat (0, 0) 8) C). cbv zeta in H.
+  assert (F : all_finished (reach ix1 [[PQuery [0] 50 (Some 0)]] (repeat (0, 0) 8)) = true).
+  { revert Hf. vm_compute. intros Hf. first [discriminate Hf | reflexivity]. }
+  assert (G : exists td, get (s_ix (reach ix1 [[PQuery [0] 50 (Some 0)]] (repeat (0, 0) 8))) 0 = Some td /\ t_readers td = 1%Z).
+  { revert Hf. vm_compute. intros Hf. first [discriminate Hf | eexists; split; reflexivity]. }
+  destruct G as (td & G & R). destruct (H F 0 td G) as (R0 & _). rewrite R in R0. discriminate.
 Qed.
 Print Assumptions C14_balanced_refuted.
 
 (* what is true in general: at quiescence nothing is exclusive and readers p is exactly the number
-   of acquisitions lost by clients (a_lost: only GetJournals with a failing journal ever loses one) *)
+   of acquisitions lost by clients (a_lost: only the unrepaired GetJournals with a failing journal ever loses one) *)
 Theorem C14_balanced_lost : forall ix0 progs sched, clean ix0 ->
   let s := reach ix0 progs sched in
   all_finished s = true -> forall p td, get (s_ix s) p = Some td ->
@@ -108,7 +128,8 @@ Proof.
 Qed.
 Print Assumptions C14_balanced_lost.
 
-(* hence the full statement under the hypothesis that no GetJournals call meets a failing journal *)
+(* hence the full statement under the hypothesis that no GetJournals call meets a failing journal
+   (quiet_proc p = gj_releases_failed || p is not `PQuery _ _ (Some _)`) *)
 Theorem C14_balanced_partial : forall ix0 progs sched, clean ix0 ->
   (forall pr, In pr progs -> forallb quiet_proc pr = true) ->
   let s := reach ix0 progs sched in
@@ -118,6 +139,16 @@ Proof.
   split; auto. rewrite R. fold s. rewrite quiet_lsum; [reflexivity|]. apply trun_quiet. apply init_quiet. exact Q.
 Qed.
 Print Assumptions C14_balanced_partial.
+
+(* ... and for the repaired GetJournals (switch flipped) the full statement holds *)
+Theorem C14_balanced_repaired : gj_releases_failed = true -> C14_balanced_statement.
+Proof.
+  intros Hf ix0 progs sched C s F p td G.
+  assert (Q : forall pr, In pr progs -> forallb quiet_proc pr = true).
+  { intros pr _. apply forallb_forall. intros q _. unfold quiet_proc. rewrite Hf. reflexivity. }
+  exact (C14_balanced_partial ix0 progs sched C Q F p td G).
+Qed.
+Print Assumptions C14_balanced_repaired.
 
 (* no deadlock: in every reachable state in which somebody has not finished, some actor can take
    a step that is not a retry (in particular: never is every unfinished actor spinning) *)
